@@ -126,7 +126,12 @@ func corpusFiles() []*descriptorpb.FileDescriptorProto {
 	dm := newMsg("Dep", "corpus.dep.Dep")
 	dm.field("id", 1, descriptorpb.FieldDescriptorProto_TYPE_UINT64, "")
 	dm.field("name", 2, descriptorpb.FieldDescriptorProto_TYPE_STRING, "")
-	dep.MessageType = append(dep.MessageType, dm.m)
+	// a message with the same name as corpus.nest.Names (another Go package), with reserved field names: state shared
+	// across the files of one invocation must not confuse the two
+	dn := newMsg("Names", "corpus.dep.Names")
+	dn.field("type", 1, descriptorpb.FieldDescriptorProto_TYPE_STRING, "")
+	dn.field("get", 2, descriptorpb.FieldDescriptorProto_TYPE_UINT64, "")
+	dep.MessageType = append(dep.MessageType, dm.m, dn.m)
 	dep.EnumType = append(dep.EnumType, &descriptorpb.EnumDescriptorProto{Name: proto.String("DepEnum"), Value: []*descriptorpb.EnumValueDescriptorProto{
 		{Name: proto.String("DEP_ZERO"), Number: proto.Int32(0)}, {Name: proto.String("DEP_ONE"), Number: proto.Int32(1)}, {Name: proto.String("DEP_NEG"), Number: proto.Int32(-1)}}})
 	files = append(files, dep)
